@@ -1083,14 +1083,14 @@ Lemma m16_pubs_some k i b conns c mm r x : find_x c conns = Some x ->
    vstat i b x c ++ vcont i x c mm ++ vret k i b x c mm r ++ snd (m16_pubs k i b (put_x (set_wst x WPublished) conns) r)).
 Proof. intro F. cbn [m16_pubs]. rewrite F. cbv zeta. destruct (m16_pubs k i b (put_x (set_wst x WPublished) conns) r); reflexivity. Qed.
 
-Lemma vret_tag k i b x c mm r : Forall (fun v => v_tag v = V16_retain) (vret k i b x c mm r).
+Lemma vret_tag k i b x c mm r : Forall (fun v => v = mkv V16_retain i c (x_id x)) (vret k i b x c mm r).
 Proof.
   unfold vret. destruct (_ && _); [|constructor]. destruct (aget _ _); [destruct (beq_bytes _ _); repeat constructor|].
   destruct (m_payload mm); repeat constructor.
 Qed.
 
 Lemma m16_pubs_ok k i b (Q : viol -> Prop) :
-  (forall v, v_tag v = V16_retain -> Q v) ->
+  (forall c id, Q (mkv V16_retain i c id)) ->
   forall ws conns, NoDup (map fst ws) ->
    (forall c mm, In (c, mm) ws -> match find_x c conns with
         | None => Q (mkv V16_unexpected i c [])
@@ -1111,7 +1111,7 @@ Proof.
         rewrite find_put, XC. destruct (c =? c2) eqn:E; [apply N.eqb_eq in E; congruence|]. apply (H c2 mm2). right. exact I2. }
       split; [|split].
       * destruct HC as [HS HT]. apply Forall_app. split; [exact HS|]. apply Forall_app. split; [exact HT|]. apply Forall_app. split; [|exact A].
-        eapply Forall_impl; [|apply vret_tag]. intros v T. apply QR, T.
+        eapply Forall_impl; [|apply vret_tag]. intros v T. rewrite T. apply QR.
       * intro c2. rewrite B, find_put, XC. cbn [map fst]. rewrite used_cons_l. destruct (c =? c2) eqn:E.
         -- apply N.eqb_eq in E. subst c2. rewrite F, N.eqb_refl. cbn [orb].
            assert (M : memN c (map fst r) = false) by (destruct (memN c (map fst r)) eqn:M; [apply memN_true in M; contradiction|reflexivity]).
@@ -1168,3 +1168,818 @@ Qed.
 
 Lemma wk_wkn a b : wk a = wk b -> wkn a = wkn b /\ o_will a = o_will b.
 Proof. intro H. destruct (wk_fields _ _ H) as (A & B & C & D & E & F). split; [unfold wkn; congruence|exact F]. Qed.
+
+(* ---------- helpers for the step proof ---------- *)
+Lemma pc_reading k s h0 x o p : wf s -> pcr k s h0 x o p -> x_open x = true -> reading s (x_conn x) = Some o.
+Proof.
+  intros W P XO. pose proof (pc_get _ _ _ _ _ _ P) as G. pose proof (pc_open _ _ _ _ _ _ P) as OP. rewrite XO in OP. symmetry in OP.
+  destruct (wf_open s W _ o G OP) as (_ & PH & _). unfold reading. rewrite G, PH, OP. reflexivity.
+Qed.
+
+Lemma live_in_reading s c ob : wf s -> reading s c = Some ob -> live_in c (o_id ob) (snap_of s) = true.
+Proof.
+  intros W R. destruct (reading_wf s c ob W R) as (G & OO & A). unfold live_in. rewrite (find_client_snap s _ W), A, G. cbn.
+  rewrite (get_obj_conn _ _ _ G), N.eqb_refl, OO. reflexivity.
+Qed.
+
+Lemma live_in_open s c id : wf s -> live_in c id (snap_of s) = true -> exists ob, reading s c = Some ob /\ o_id ob = id /\ aget id (st_clients s) = Some c.
+Proof.
+  intros W L. unfold live_in in L. rewrite (find_client_snap s _ W) in L.
+  destruct (aget id (st_clients s)) as [c'|] eqn:A; [|discriminate]. destruct (wf_reg s W id c' A) as (o & G & I & _). rewrite G in L. cbn in L.
+  apply andb_true_iff in L. destruct L as [E OO]. apply N.eqb_eq in E. rewrite (get_obj_conn _ _ _ G) in E. subst c'.
+  destruct (wf_open s W c o G OO) as (_ & PH & _). exists o. split; [unfold reading; rewrite G, PH, OO; reflexivity|auto].
+Qed.
+
+Lemma step_used_mono k s o c : wf s -> memN c (st_used s) = true -> memN c (st_used (fst (step k s o))) = true.
+Proof.
+  intros W M. pose proof (step_shape k s o (wf_used s W)) as SH. destruct (step k s o) as [s' outs]. cbn [fst].
+  destruct SH as (_ & (U & _) & _). apply U, M.
+Qed.
+
+Lemma step_used_new k s o c :
+  wf s -> (match o with OConnect c' _ _ _ _ | OBadFirst c' _ => c' = c | _ => False end) -> memN c (st_used (fst (step k s o))) = true.
+Proof.
+  intros W H. destruct (memN c (st_used s)) eqn:M; [apply step_used_mono; assumption|].
+  assert (NEW : is_new_conn s o = Some c) by (destruct o; try destruct H; subst; cbn; rewrite M; reflexivity).
+  pose proof (step_shape k s o (wf_used s W)) as SH. destruct (step k s o) as [s' outs]. rewrite NEW in SH. cbn [fst].
+  destruct SH as (_ & _ & U & _). rewrite U, used_cons_l, N.eqb_refl. reflexivity.
+Qed.
+
+(* connections that have not been used yet do not occur in the history *)
+Lemma fresh_step k s o h0 :
+  wf s -> (forall c, memN c (st_used s) = false -> params_of c h0 = None /\ view_of k c None h0 = None) ->
+  forall c, memN c (st_used (fst (step k s o))) = false ->
+    params_of c (h0 ++ [obs_of (tstep_of k s o)]) = None /\ view_of k c None (h0 ++ [obs_of (tstep_of k s o)]) = None.
+Proof.
+  intros W F c M'.
+  assert (M : memN c (st_used s) = false).
+  { destruct (memN c (st_used s)) eqn:M; [|reflexivity]. rewrite (step_used_mono k s o c W M) in M'. discriminate. }
+  destruct (F c M) as [P V]. rewrite params_of_app, P, view_of_app, V. cbn [params_of view_of]. unfold view_step. cbn [obs_of tstep_of b_op t_op].
+  destruct o; auto.
+  - destruct (c0 =? c) eqn:E; [|auto]. apply N.eqb_eq in E. subst c0.
+    rewrite (step_used_new k s (OConnect c now p auth_ok effid) c W eq_refl) in M'. discriminate.
+  - destruct (c0 =? c); auto.
+Qed.
+
+(* ---------- phases of the monitor step that do nothing ---------- *)
+Lemma m16_end_none k i conns b : ends_conn (b_op b) = None -> m16_end k i conns b = (conns, []).
+Proof. intro E. unfold m16_end. rewrite E. reflexivity. Qed.
+
+Lemma m16_end_closed k i conns b c t n : ends_conn (b_op b) = Some (c, t, n) ->
+  (forall x, find_x c conns = Some x -> x_open x = false) -> m16_end k i conns b = (conns, []).
+Proof. intros E H. unfold m16_end. rewrite E. destruct (find_x c conns) as [x|] eqn:F; [rewrite (H x eq_refl)|]; reflexivity. Qed.
+
+Lemma m16_new_none k i conns b :
+  match b_op b with OConnect c _ _ _ _ => success_connack (pkts_to c (b_outs b)) = None | _ => True end ->
+  m16_new k i conns b = (conns, []).
+Proof. intro H. unfold m16_new. destruct (b_op b); try reflexivity. rewrite H. reflexivity. Qed.
+
+Definition f_dead (b : obs) (x : sconn) : sconn :=
+  match x_wst x, ends_conn (b_op b) with
+  | WMust, Some (c, _, _) => if (c =? x_conn x) && x_open x then set_wst x WFailed else x
+  | _, _ => x
+  end.
+
+Lemma m16_dead_default i conns b :
+  match b_op b with OTeardown _ _ | OTickWill _ => False | _ => True end -> m16_dead i conns b = (map (f_dead b) conns, []).
+Proof. intro H. unfold m16_dead, f_dead. destruct (b_op b); try destruct H; reflexivity. Qed.
+
+Lemma f_dead_conn b x : x_conn (f_dead b x) = x_conn x.
+Proof. unfold f_dead. destruct (x_wst x); try reflexivity. destruct (ends_conn (b_op b)) as [[[c t] n]|]; [|reflexivity]. destruct (_ && _); reflexivity. Qed.
+
+Lemma m16_mark_conn b x : x_conn (m16_mark b x) = x_conn x.
+Proof. unfold m16_mark. destruct (_ && _); reflexivity. Qed.
+
+Lemma f_dead_open k s h0 b x : pc k s h0 x -> x_wst x = WMust -> f_dead b x = x.
+Proof.
+  intros (o & p & P) ST. unfold f_dead. rewrite ST. destruct (ends_conn (b_op b)) as [[[c t] n]|]; [|reflexivity].
+  destruct (x_open x) eqn:XO; [|rewrite andb_false_r; reflexivity].
+  destruct (pc_live _ _ _ _ _ _ P XO) as (_ & _ & [E|E]); congruence.
+Qed.
+
+Lemma f_dead_id k s h0 b x : pc k s h0 x -> f_dead b x = x.
+Proof. intro P. destruct (x_wst x) eqn:ST; try (unfold f_dead; rewrite ST; reflexivity). apply (f_dead_open k s h0 b x P ST). Qed.
+
+Lemma find_map_id (f : sconn -> sconn) c l : (forall x, x_conn (f x) = x_conn x) ->
+  (forall x, find_x c l = Some x -> f x = x) -> find_x c (map f l) = find_x c l.
+Proof. intros H1 H2. rewrite (find_map f c l H1). destruct (find_x c l) as [x|] eqn:F; [cbn; rewrite (H2 x eq_refl)|]; reflexivity. Qed.
+
+(* ---------- case: an operation that changes nothing will-relevant ---------- *)
+Lemma ki_quiet k m s h0 o s' outs b :
+  KI k m s h0 -> b_op b = o -> b_outs b = outs -> b_pre b = snap_of s ->
+  wsame s s' -> st_wills s' = st_wills s -> wills_of outs = [] ->
+  (forall c, In c (closes outs) -> hasobj s c = false) -> quiet_op s o outs ->
+  inv s' -> wwf s' ->
+  (forall c, memN c (st_used s') = false -> params_of c (h0 ++ [b]) = None /\ view_of k c None (h0 ++ [b]) = None) ->
+  KI k (fst (m16_step k (length h0) m b)) s' (h0 ++ [b]) /\ snd (m16_step k (length h0) m b) = [].
+Proof.
+  intros [V WW ND KX KO KF] BOP BO BPRE WS TW WO CL QO V' WW' KF'.
+  destruct V as [W X].
+  set (conns := d_conns m) in *.
+  (* 1 *)
+  assert (E1 : m16_end k (length h0) conns b = (conns, [])).
+  { destruct (ends_conn (b_op b)) as [[[c t] n]|] eqn:EC; [|apply m16_end_none, EC].
+    apply (m16_end_closed k _ conns b c t n EC). intros x F. destruct (x_open x) eqn:XO; [|reflexivity]. exfalso.
+    destruct (KX c x F) as (ox & px & P). pose proof (pc_reading k s h0 x ox px W P XO) as R. rewrite (find_x_conn _ _ _ F) in R.
+    rewrite BOP in EC. destruct o; cbn in EC; try discriminate; inversion EC; subst; cbn in QO; congruence. }
+  (* 2 *)
+  assert (E2 : m16_new k (length h0) conns b = (conns, [])).
+  { apply m16_new_none. rewrite BOP, BO. destruct o; auto. }
+  (* 4 *)
+  assert (E4 : exists conns4, m16_dead (length h0) conns b = (conns4, []) /\ (forall c, find_x c conns4 = find_x c conns) /\
+                              map x_conn conns4 = map x_conn conns).
+  { destruct (b_op b) eqn:OB.
+    5:{ (* OTeardown *) exists conns. split; [|auto]. unfold m16_dead. rewrite OB.
+        destruct (find_x c conns) as [x|] eqn:F; [|reflexivity]. destruct (x_wst x) eqn:ST; try reflexivity. exfalso.
+        destruct (KX c x F) as (ox & px & P). pose proof (pc_st _ _ _ _ _ _ P) as SO. unfold status_ok in SO. rewrite ST in SO.
+        destruct SO as [PH _]. subst o. cbn in QO. pose proof (pc_get _ _ _ _ _ _ P) as G.
+        rewrite (find_x_conn _ _ _ F) in G. apply (QO ox G PH). }
+    6:{ subst o. destruct QO. }
+    all: exists (map (f_dead b) conns); (split; [apply m16_dead_default; rewrite OB; exact I|]);
+      (split; [|apply map_keys, f_dead_conn]); intro c0; apply find_map_id; [apply f_dead_conn|];
+      intros x F; apply (f_dead_id k s h0 b x (KX c0 x F)). }
+  destruct E4 as (conns4 & E4 & F4 & K4).
+  assert (M5 : forall c, find_x c (map (m16_mark b) conns4) = find_x c conns).
+  { intro c. rewrite <- F4. apply find_map_id; [apply m16_mark_conn|]. intros x F. rewrite F4 in F.
+    unfold m16_mark. destruct (x_open x && memN (x_conn x) (closes (b_outs b))) eqn:E; [|reflexivity]. exfalso.
+    apply andb_true_iff in E. destruct E as [_ E]. apply memN_true in E. rewrite BO in E. apply CL in E.
+    destruct (KX c x F) as (ox & px & P). pose proof (pc_get _ _ _ _ _ _ P) as G. unfold hasobj in E. rewrite G in E. discriminate. }
+  unfold m16_step. fold conns. rewrite E1, E2, BO, WO. cbn [m16_pubs]. rewrite E4. cbn [fst snd app]. split; [|reflexivity].
+  split; [exact V'|exact WW'| | | |exact KF']; cbn [d_conns].
+  - rewrite (map_keys (m16_mark b) conns4 (m16_mark_conn b)), K4. exact ND.
+  - intros c x F. rewrite M5 in F. destruct (KX c x F) as (ox & px & P).
+    pose proof (pc_get _ _ _ _ _ _ P) as G. destruct (wk_obj_fwd s s' _ ox (WS _) G) as (ox' & G' & E). destruct (wk_wkn _ _ E) as [EK EW].
+    apply (pc_frame k s s' h0 b x ox px P).
+    + exists ox'. auto.
+    + intros id d II _. rewrite TW in II. exact II.
+    + intros xv VW. destruct (pc_view _ _ _ _ _ _ P) as (xv' & VW' & _ & _ & _ & _ & XI). rewrite VW in VW'. inversion VW'; subst xv'.
+      unfold view_step. rewrite BOP. destruct o; try reflexivity.
+      * destruct (c0 =? x_conn x) eqn:EC; [|reflexivity]. apply N.eqb_eq in EC. subst c0. cbn in QO. rewrite BO, QO. reflexivity.
+      * destruct (c0 =? x_conn x) eqn:EC; [|reflexivity]. apply N.eqb_eq in EC. subst c0.
+        destruct (live_in (x_conn x) (x_id xv) (b_pre b)) eqn:L; [|reflexivity]. exfalso. rewrite BPRE in L.
+        destruct (live_in_open s _ _ W L) as (ob & R & _). cbn in QO. congruence.
+  - intros c ox' G'. destruct (wk_obj_back s s' _ ox' (WS _) G') as (ox & G & _). destruct (KO c ox G) as (x & F). exists x. rewrite M5. exact F.
+Qed.
+
+(* ---------- small facts ---------- *)
+Lemma beq_msg_refl a : beq_msg a a = true.
+Proof. unfold beq_msg. rewrite !bb_refl, N.eqb_refl, Bool.eqb_reflx. reflexivity. Qed.
+
+Lemma stored_le_delay p : (cp_ver p <> 5 -> cp_willdelay p = 0) -> stored_delay p <= delay0 p.
+Proof.
+  intro SN. unfold stored_delay, delay0. destruct (cp_ver p =? 5) eqn:V; cbn [negb]; [|lia].
+  destruct (cp_seiflag p && (cp_sei p <? cp_willdelay p)) eqn:E; [|lia]. apply andb_true_iff in E. destruct E as [_ E]. lia.
+Qed.
+
+Lemma eff_eq k xv x : x_ver xv = x_ver x -> x_clean xv = x_clean x -> x_req xv = x_req x -> eff k xv = eff k x.
+Proof. intros A B C. unfold eff. rewrite A, B, C. reflexivity. Qed.
+
+Lemma eff_set_wst k x w : eff k (set_wst x w) = eff k x.
+Proof. reflexivity. Qed.
+
+Lemma set_wst_same x : set_wst x (x_wst x) = x.
+Proof. destruct x; reflexivity. Qed.
+
+Lemma conn_unique s id1 d1 id2 d2 : wwf s -> In (id1, d1) (st_wills s) -> In (id2, d2) (st_wills s) -> d_conn d1 = d_conn d2 ->
+  id1 = id2 /\ d1 = d2.
+Proof.
+  intros [ND WD] I1 I2 E. destruct (WD id1 d1 I1) as (o1 & G1 & K1 & _). destruct (WD id2 d2 I2) as (o2 & G2 & K2 & _).
+  rewrite E in G1. rewrite G1 in G2. assert (EI : id1 = id2) by congruence. split; [exact EI|]. rewrite <- EI in I2.
+  pose proof (in_aget_nodup id1 d1 _ ND I1) as A1. pose proof (in_aget_nodup id1 d2 _ ND I2) as A2. congruence.
+Qed.
+
+Lemma nodup_map_filter {A B} (f : A -> B) (g : A -> bool) l : NoDup (map f l) -> NoDup (map f (filter g l)).
+Proof.
+  induction l as [|a r IH]; cbn; [auto|]. intro ND. inversion ND as [|? ? NI ND']; subst. destruct (g a); cbn; [|apply IH, ND'].
+  constructor; [|apply IH, ND']. intro I. apply NI. apply in_map_iff in I. destruct I as (y & E & IY). apply filter_In in IY.
+  apply in_map_iff. exists y. tauto.
+Qed.
+
+Lemma nodup_conns s : wwf s -> NoDup (map (fun e => d_conn (snd e)) (st_wills s)).
+Proof.
+  intro WW. assert (H : forall l, (forall e, In e l -> In e (st_wills s)) -> NoDup (map fst l) -> NoDup (map (fun e => d_conn (snd e)) l)).
+  { induction l as [|[id d] r IH]; cbn; intros SUB ND; [constructor|]. inversion ND as [|? ? NI ND']; subst. constructor.
+    - intro I. apply in_map_iff in I. destruct I as ([id2 d2] & E & I2). cbn in E.
+      destruct (conn_unique s id2 d2 id d WW (SUB _ (or_intror I2)) (SUB _ (or_introl eq_refl)) E) as [-> ->].
+      apply NI. apply (in_map fst) in I2. exact I2.
+    - apply IH; [intros e I; apply SUB; right; exact I|exact ND']. }
+  apply H; [auto|apply (ww_nodup s WW)].
+Qed.
+
+(* a connection whose entry of the view changes only in its status *)
+Lemma pc_frame2 k s s' h0 b x o p o' st' :
+  pcr k s h0 x o p ->
+  get_obj (x_conn x) (st_objs s') = Some o' -> wkn o' = wkn o -> (o_will o' = o_will o \/ w_flag (o_will o') = false) ->
+  (forall id d, In (id, d) (st_wills s') -> d_conn d = x_conn x -> In (id, d) (st_wills s)) ->
+  (forall xv, view_of k (x_conn x) None h0 = Some xv -> view_step k (x_conn x) (Some xv) b = Some xv) ->
+  (x_open x = true -> st' = WNone \/ st' = WArmed) ->
+  status_ok k s' (h0 ++ [b]) p o' (set_wst x st') ->
+  pc k s' (h0 ++ [b]) (set_wst x st').
+Proof.
+  intros [G PA I V OV CL WI DL OP LV FL EN (xv & VW & VX) SN ST] G' K WW SUB VS LV' ST'.
+  destruct (wkn_fields _ _ K) as (KI1 & KV & KS & KO & KP).
+  exists o', p. split; cbn [x_conn x_id x_ver x_clean x_will x_delay x_open x_req x_wst set_wst x_with]; try congruence; try assumption.
+  - rewrite params_of_app, PA. reflexivity.
+  - intro XO. destruct (LV XO) as (A & B & C). split; [exact A|split; [congruence|apply LV', XO]].
+  - intro F'. destruct WW as [WW|WW]; [|congruence]. rewrite WW in *. apply FL, F'.
+  - intros id d II DC. apply (EN id d); [apply SUB; assumption|exact DC].
+  - exists xv. split; [|exact VX]. rewrite view_of_app, VW. cbn [view_of]. apply VS, VW.
+Qed.
+
+(* ---------- case: the delayed-will tick ---------- *)
+Lemma params_snoc c h0 b p : params_of c h0 = Some p -> params_of c (h0 ++ [b]) = Some p.
+Proof. intro H. rewrite params_of_app, H. reflexivity. Qed.
+
+Lemma late_reg_intro c hp p : taken_over_live c hp = true -> params_of c hp = Some p -> cp_willflag p = true -> 0 < stored_delay p ->
+  late_registrant c hp = true.
+Proof. intros T P F D. unfold late_registrant. rewrite T, P, F. cbn. apply N.ltb_lt, D. Qed.
+
+Lemma tick_pub_ok k s h0 b now x o p id d :
+  wf s -> wwf s -> pcr k s h0 x o p -> b_op b = OTickWill now -> In (id, d) (st_wills s) -> d_conn d = x_conn x -> due now (id, d) = true ->
+  Forall (fun v => v_step v = length h0 /\ expl k (h0 ++ [b]) b v) (vstat (length h0) b x (x_conn x)) /\
+  vcont (length h0) x (x_conn x) (d_msg d) = [] /\ o_phase o = PhDone /\ x_open x = false.
+Proof.
+  intros W WW P BOP II DC DU.
+  assert (SE : srcE s (x_conn x)) by (exists id, d; auto).
+  destruct (ww_done s WW id d II) as (od & Gd & _ & PD). rewrite DC, (pc_get _ _ _ _ _ _ P) in Gd. inversion Gd; subst od. clear Gd.
+  destruct (pc_ent _ _ _ _ _ _ P id d II DC) as (WF & DM & SD).
+  assert (XC : x_open x = false).
+  { destruct (x_open x) eqn:XO; [|reflexivity]. rewrite (pc_open _ _ _ _ _ _ P) in XO.
+    destruct (wf_open s W _ o (pc_get _ _ _ _ _ _ P) XO) as (_ & PH & _). congruence. }
+  split; [|split; [unfold vcont; rewrite DM, (pc_will _ _ _ _ _ _ P), beq_msg_refl; reflexivity|split; [exact PD|exact XC]]].
+  pose proof (pc_st _ _ _ _ _ _ P) as ST. unfold status_ok in ST. unfold vstat.
+  pose proof (params_snoc _ h0 b p (pc_par _ _ _ _ _ _ P)) as PAR.
+  destruct (pc_view _ _ _ _ _ _ P) as (xv & VW & VV & VC & VR & VD & VI).
+  assert (VW' : view_of k (x_conn x) None (h0 ++ [b]) = Some xv).
+  { rewrite view_of_app, VW. cbn [view_of]. unfold view_step. rewrite BOP. reflexivity. }
+  pose proof (eff_eq k xv x VV VC VR) as EE.
+  destruct (x_wst x) as [| | |tend due0| | | |] eqn:XS.
+  - destruct ST as [_ NS]. contradiction.
+  - rewrite ST in XC. discriminate.
+  - constructor.
+  - destruct ST as (_ & DUE & ENT). rewrite BOP. cbn [op_now]. destruct (due0 <=? now)%Z eqn:LE; [constructor|].
+    constructor; [|constructor]. split; [reflexivity|]. right. right. right. left. split; [reflexivity|]. exists p, xv. cbn [v_conn mkv].
+    split; [exact PAR|]. split; [exact VW'|]. split; [exact WF|]. rewrite VD, EE.
+    pose proof (ENT id d II DC) as DD. unfold due in DU. cbn [snd] in DU. apply N.ltb_lt. lia.
+  - destruct ST as [_ NS]. contradiction.
+  - destruct ST as [_ NS]. contradiction.
+  - destruct (ST (or_intror SE)) as [T _]. constructor; [|constructor]. split; [reflexivity|]. right. left. split; [left; reflexivity|].
+    cbn [v_conn mkv]. apply (late_reg_intro _ _ p); auto. apply tol_mono, T.
+  - destruct ST as [_ H]. constructor; [|constructor]. split; [reflexivity|]. destruct (H SE) as [T|U].
+    + right. left. split; [right; reflexivity|]. cbn [v_conn mkv]. apply (late_reg_intro _ _ p); auto. apply tol_mono, T.
+    + right. right. left. split; [reflexivity|]. exists p, xv. cbn [v_conn mkv]. rewrite EE. auto.
+Qed.
+
+Definition g_tick (now : Z) (x : sconn) : sconn :=
+  match x_wst x with WPending _ due0 => if (due0 <? now)%Z then set_wst x WFailed else x | _ => x end.
+
+Lemma g_tick_conn now x : x_conn (g_tick now x) = x_conn x.
+Proof. unfold g_tick. destruct (x_wst x); try reflexivity. destruct (_ <? _)%Z; reflexivity. Qed.
+
+Lemma g_tick_cases now x : g_tick now x = x \/
+  exists t due0, x_wst x = WPending t due0 /\ (due0 <? now)%Z = true /\ g_tick now x = set_wst x WFailed.
+Proof.
+  unfold g_tick. destruct (x_wst x) as [| | |t due0| | | |] eqn:E; auto. destruct (due0 <? now)%Z eqn:L; [|auto].
+  right. exists t, due0. auto.
+Qed.
+
+Lemma m16_dead_tick i conns b now : b_op b = OTickWill now ->
+  m16_dead i conns b =
+  (map (g_tick now) conns,
+   flat_map (fun x => match x_wst x with
+                      | WPending _ due0 => if (due0 <? now)%Z then [mkv V16_late i (x_conn x) (x_id x)] else []
+                      | _ => [] end) conns).
+Proof. intro H. unfold m16_dead. rewrite H. reflexivity. Qed.
+
+Lemma mark_nil b x : closes (b_outs b) = [] -> m16_mark b x = x.
+Proof.
+  intro H. unfold m16_mark. rewrite H. destruct (memN (x_conn x) []) eqn:M; [apply memN_true in M; destruct M|]. rewrite andb_false_r. reflexivity.
+Qed.
+
+Lemma closed_of_done k s h0 x o p : wf s -> pcr k s h0 x o p -> o_phase o = PhDone -> x_open x = false.
+Proof.
+  intros W P PD. destruct (x_open x) eqn:XO; [|reflexivity]. rewrite (pc_open _ _ _ _ _ _ P) in XO.
+  destruct (wf_open s W _ o (pc_get _ _ _ _ _ _ P) XO) as (_ & PH & _). congruence.
+Qed.
+
+Lemma ki_tick k m s h0 now s' outs b :
+  KI k m s h0 -> b_op b = OTickWill now -> b_outs b = outs ->
+  wcleared s s' -> (forall x, In x (st_wills s') <-> In x (st_wills s) /\ due now x = false) ->
+  wills_of outs = map (fun e => (d_conn (snd e), d_msg (snd e))) (filter (due now) (st_wills s)) -> closes outs = [] ->
+  inv s' -> wwf s' ->
+  (forall c, memN c (st_used s') = false -> params_of c (h0 ++ [b]) = None /\ view_of k c None (h0 ++ [b]) = None) ->
+  KI k (fst (m16_step k (length h0) m b)) s' (h0 ++ [b]) /\
+  Forall (fun v => v_step v = length h0 /\ expl k (h0 ++ [b]) b v) (snd (m16_step k (length h0) m b)).
+Proof.
+  intros [V WW ND KX KO KF] BOP BO WC TI WO CL V' WW' KF'. destruct V as [W X].
+  set (conns := d_conns m) in *. set (ws := wills_of (b_outs b)).
+  assert (E1 : m16_end k (length h0) conns b = (conns, [])) by (apply m16_end_none; rewrite BOP; reflexivity).
+  assert (E2 : m16_new k (length h0) conns b = (conns, [])) by (apply m16_new_none; rewrite BOP; exact I).
+  assert (WSE : ws = map (fun e => (d_conn (snd e), d_msg (snd e))) (filter (due now) (st_wills s))) by (subst ws; rewrite BO; exact WO).
+  assert (NDW : NoDup (map fst ws)).
+  { rewrite WSE, map_map. cbn [fst]. apply nodup_map_filter, nodup_conns, WW. }
+  assert (INW : forall c mm, In (c, mm) ws -> exists id d, In (id, d) (st_wills s) /\ due now (id, d) = true /\ d_conn d = c /\ d_msg d = mm).
+  { intros c mm II. rewrite WSE in II. apply in_map_iff in II. destruct II as ([id d] & E & II). apply filter_In in II. inversion E. exists id, d. cbn. tauto. }
+  destruct (m16_pubs_ok k (length h0) b (fun v => v_step v = length h0 /\ expl k (h0 ++ [b]) b v) (fun c id => conj eq_refl (or_introl eq_refl)) ws conns NDW)
+    as (PA & PB & PC).
+  { intros c mm II. destruct (INW c mm II) as (id & d & ID & DU & DC & DM).
+    destruct (ww_done s WW id d ID) as (od & Gd & _ & _). rewrite DC in Gd. destruct (KO c od Gd) as (x & F). rewrite F.
+    destruct (KX c x F) as (ox & px & P). pose proof (find_x_conn _ _ _ F) as XC.
+    destruct (tick_pub_ok k s h0 b now x ox px id d W WW P BOP ID (eq_trans DC (eq_sym XC)) DU) as (A & B & _).
+    rewrite XC in A, B. rewrite <- DM, B. split; [exact A|constructor]. }
+  unfold m16_step. fold conns. fold ws. rewrite E1, E2.
+  destruct (m16_pubs k (length h0) b conns ws) as [conns3 v_pub]. cbn [fst snd] in PA, PB, PC.
+  rewrite (m16_dead_tick (length h0) conns3 b now BOP). cbn [fst snd app].
+  assert (F5 : forall c, find_x c (map (m16_mark b) (map (g_tick now) conns3)) = option_map (g_tick now) (find_x c conns3)).
+  { intro c. rewrite (find_map_id (m16_mark b) c _ (m16_mark_conn b)); [apply (find_map (g_tick now)), g_tick_conn|].
+    intros x _. apply mark_nil. rewrite BO. exact CL. }
+  split.
+  - split; [exact V'|exact WW'| | | |exact KF']; cbn [d_conns].
+    + rewrite (map_keys (m16_mark b) _ (m16_mark_conn b)), (map_keys (g_tick now) _ (g_tick_conn now)), PC. exact ND.
+    + intros c x5 FF. rewrite F5, PB in FF. destruct (find_x c conns) as [x|] eqn:F; [|discriminate]. cbn [option_map] in FF.
+      destruct (KX c x F) as (ox & px & P). pose proof (find_x_conn _ _ _ F) as XC.
+      destruct (wcleared_fwd s s' _ ox WC (pc_get _ _ _ _ _ _ P)) as (ox' & G' & K & WL).
+      assert (WL' : o_will ox' = o_will ox \/ w_flag (o_will ox') = false) by (destruct WL as [WL|WL]; [left; exact WL|right; rewrite WL; reflexivity]).
+      assert (SUB : forall id d, In (id, d) (st_wills s') -> d_conn d = x_conn x -> In (id, d) (st_wills s)) by (intros id d II _; apply TI in II; tauto).
+      assert (VS : forall xv, view_of k (x_conn x) None h0 = Some xv -> view_step k (x_conn x) (Some xv) b = Some xv)
+        by (intros xv _; unfold view_step; rewrite BOP; reflexivity).
+      destruct (wkn_fields _ _ K) as (_ & _ & _ & _ & KP).
+      destruct (memN c (map fst ws)) eqn:MEM.
+      * (* published in this tick *)
+        apply memN_true in MEM. apply in_map_iff in MEM. destruct MEM as ([c2 mm] & EC & II). cbn in EC. subst c2.
+        destruct (INW c mm II) as (id & d & ID & DU & DC & DM).
+        destruct (tick_pub_ok k s h0 b now x ox px id d W WW P BOP ID (eq_trans DC (eq_sym XC)) DU) as (_ & _ & PD & XO).
+        assert (GT : g_tick now (set_wst x WPublished) = set_wst x WPublished) by reflexivity. rewrite GT in FF. inversion FF; subst x5.
+        apply (pc_frame2 k s s' h0 b x ox px ox' WPublished P G' K WL' SUB VS); [intro H; congruence|].
+        unfold status_ok. cbn [x_wst set_wst x_with x_conn]. split; [congruence|].
+        intros (id2 & d2 & I2 & DC2). apply TI in I2. destruct I2 as [I2 D2].
+        destruct (conn_unique s id2 d2 id d WW I2 ID) as [-> ->]; [congruence|]. congruence.
+      * (* not published *)
+        destruct (g_tick_cases now x) as [GT|(t & due0 & XS & LT & GT)]; rewrite GT in FF; inversion FF; subst x5.
+        -- apply (pc_frame k s s' h0 b x ox px P); [exists ox'; auto|exact SUB|exact VS].
+        -- pose proof (pc_st _ _ _ _ _ _ P) as ST. unfold status_ok in ST. rewrite XS in ST. destruct ST as (PD & DUE & ENT).
+           apply (pc_frame2 k s s' h0 b x ox px ox' WFailed P G' K WL' SUB VS).
+           ++ intro XO. rewrite (closed_of_done k s h0 x ox px W P PD) in XO. discriminate.
+           ++ unfold status_ok. cbn [x_wst set_wst x_with x_conn]. split; [congruence|].
+              intros (id2 & d2 & I2 & DC2). right. apply TI in I2. destruct I2 as [I2 D2]. pose proof (ENT id2 d2 I2 DC2) as DD.
+              unfold due in D2. cbn [snd] in D2. pose proof (stored_le_delay px (pc_sane _ _ _ _ _ _ P)) as SL.
+              rewrite <- (pc_delay _ _ _ _ _ _ P) in SL.
+              rewrite eff_set_wst.
+              apply N.ltb_lt. unfold minN in DUE. destruct (x_delay x <? eff k x) eqn:MM; lia.
+    + intros c ox' G'. destruct (wcleared_back s s' _ ox' WC G') as (ox & G & _). destruct (KO c ox G) as (x & F).
+      rewrite F5, PB, F. cbn. eexists. reflexivity.
+  - apply Forall_app. split; [exact PA|]. apply flat_map_tag. intros x _.
+    destruct (x_wst x); try constructor. destruct (_ <? _)%Z; repeat constructor.
+Qed.
+
+(* ---------- case: the end of a connection's handler - what the monitor computes ---------- *)
+Lemma memN_single c' c : memN c' [c] = (c' =? c).
+Proof. rewrite used_cons_l. destruct (memN c' []) eqn:M; [apply memN_true in M; destruct M|]. apply orb_false_r. Qed.
+
+Lemma put_put x y l : x_conn y = x_conn x -> put_x y (put_x x l) = put_x y l.
+Proof.
+  intro E. induction l as [|z r IH]; cbn.
+  - rewrite E, N.eqb_refl. reflexivity.
+  - destruct (x_conn z =? x_conn x) eqn:EZ; cbn.
+    + rewrite E, N.eqb_refl, EZ. reflexivity.
+    + rewrite E, EZ. f_equal. exact IH.
+Qed.
+
+Lemma end_spec k i m b c now n0 x ws :
+  ends_conn (b_op b) = Some (c, now, n0) -> find_x c (d_conns m) = Some x -> x_open x = true ->
+  closes (b_outs b) = [c] -> wills_of (b_outs b) = ws -> (ws = [] \/ exists mm, ws = [(c, mm)]) ->
+  (forall c' y, find_x c' (d_conns m) = Some y -> c' <> c -> f_dead b y = y) ->
+  let sei' := match b_op b with ODisconnect _ _ _ s => if x_ver x =? 5 then s else None | _ => None end in
+  let nrm := n0 && negb (raise_attempt x sei') in
+  let req' := if x_ver x =? 5 then req_after k x sei' else x_req x in
+  let xe := fun st => x_with x req' true (Some now) st in
+  let dd := minN (x_delay x) (eff k (xe (x_wst x))) in
+  let st1 := match x_wst x with
+             | WArmed => if nrm then WNormal else if dd =? 0 then WMust else WPending now (now + Z.of_N dd)%Z
+             | w => w end in
+  let st3 := match ws with [] => st1 | _ => WPublished end in
+  let st4 := match st3 with WMust => WFailed | w => w end in
+  (forall c', find_x c' (d_conns (fst (m16_step k i m b))) =
+              if c' =? c then Some (x_with x req' false (Some now) st4) else find_x c' (d_conns m)) /\
+  map x_conn (d_conns (fst (m16_step k i m b))) = map x_conn (d_conns m) /\
+  forall Q : viol -> Prop, (forall id, Q (mkv V16_missing i c id)) -> (forall c0 id, Q (mkv V16_retain i c0 id)) ->
+    (forall mm, ws = [(c, mm)] -> Forall Q (vstat i b (xe st1) c) /\ Forall Q (vcont i (xe st1) c mm)) ->
+    Forall Q (snd (m16_step k i m b)).
+Proof.
+  intros EC F XO CL WS WSC FD sei' nrm req' xe dd st1 st3 st4.
+  set (conns := d_conns m) in *. pose proof (find_x_conn _ _ _ F) as XC.
+  (* 1 *)
+  assert (E1 : exists v_end, m16_end k i conns b = (put_x (xe st1) conns, v_end) /\
+                             forall Q : viol -> Prop, (forall id, Q (mkv V16_missing i c id)) -> Forall Q v_end).
+  { unfold m16_end. rewrite EC, F, XO. fold sei'. fold nrm. fold req'. subst st1 dd xe. cbv beta.
+    destruct (x_wst x) eqn:XS; try (eexists; split; [reflexivity|intros; constructor]).
+    destruct nrm; [eexists; split; [reflexivity|intros; constructor]|].
+    destruct (minN (x_delay x) (eff k (x_with x req' true (Some now) WArmed)) =? 0) eqn:DZ.
+    - eexists. split; [reflexivity|]. intros Q HQ. destruct (published_in (wills_of (b_outs b)) c); repeat constructor. apply HQ.
+    - eexists. split; [reflexivity|intros; constructor]. }
+  destruct E1 as (v_end & E1 & QE).
+  set (conns1 := put_x (xe st1) conns) in *.
+  assert (XE : forall st, x_conn (xe st) = c) by (intro st; exact XC).
+  (* 2 *)
+  assert (E2 : m16_new k i conns1 b = (conns1, [])).
+  { apply m16_new_none. destruct (b_op b); try exact I. discriminate EC. }
+  (* 3 *)
+  assert (E3 : exists v_pub, m16_pubs k i b conns1 ws = (put_x (xe st3) conns1, v_pub) /\
+               forall Q : viol -> Prop, (forall c0 id, Q (mkv V16_retain i c0 id)) ->
+                 (forall mm, ws = [(c, mm)] -> Forall Q (vstat i b (xe st1) c) /\ Forall Q (vcont i (xe st1) c mm)) -> Forall Q v_pub).
+  { destruct WSC as [->|(mm & ->)].
+    - exists []. split; [|intros; constructor]. cbn [m16_pubs]. subst st3. cbv beta iota.
+      f_equal. subst conns1. symmetry. apply put_put. reflexivity.
+    - assert (F1 : find_x c conns1 = Some (xe st1)) by (subst conns1; rewrite <- (XE st1) at 1; apply find_put_same).
+      rewrite (m16_pubs_some k i b conns1 c mm [] (xe st1) F1). cbn [m16_pubs fst snd]. eexists. split; [reflexivity|].
+      intros Q QR H. destruct (H mm eq_refl) as [HS HC]. apply Forall_app. split; [exact HS|]. apply Forall_app. split; [exact HC|].
+      rewrite app_nil_r. eapply Forall_impl; [|apply vret_tag]. intros v T. rewrite T. apply QR. }
+  destruct E3 as (v_pub & E3 & QP).
+  set (conns3 := put_x (xe st3) conns1) in *.
+  (* 4 *)
+  assert (E4 : m16_dead i conns3 b = (map (f_dead b) conns3, [])).
+  { apply m16_dead_default. destruct (b_op b); try exact I; discriminate EC. }
+  assert (F3 : forall c', find_x c' conns3 = if c' =? c then Some (xe st3) else find_x c' conns).
+  { intro c'. subst conns3 conns1. rewrite !find_put, !XE. rewrite (N.eqb_sym c c'). destruct (c' =? c); reflexivity. }
+  assert (FDC : f_dead b (xe st3) = xe st4).
+  { unfold f_dead. rewrite EC. subst st4. cbn [x_wst xe x_with]. destruct st3; try reflexivity.
+    rewrite (XE WMust), N.eqb_refl. reflexivity. }
+  unfold m16_step. fold conns. rewrite E1, E2, WS, E3, E4. cbn [fst snd d_conns app].
+  split; [|split].
+  - intro c'. rewrite (find_map (m16_mark b) c' _ (m16_mark_conn b)), (find_map (f_dead b) c' _ (f_dead_conn b)), F3.
+    destruct (c' =? c) eqn:E.
+    + cbn [option_map]. rewrite FDC. f_equal. unfold m16_mark. cbn [x_open x_conn x_with xe]. rewrite CL, XC, memN_single, N.eqb_refl. reflexivity.
+    + destruct (find_x c' conns) as [y|] eqn:FY; [|reflexivity]. cbn [option_map]. apply N.eqb_neq in E.
+      rewrite (FD c' y FY E). f_equal. unfold m16_mark. rewrite CL, memN_single, (find_x_conn _ _ _ FY).
+      destruct (c' =? c) eqn:EQ; [apply N.eqb_eq in EQ; congruence|]. rewrite andb_false_r. reflexivity.
+  - rewrite (map_keys (m16_mark b) _ (m16_mark_conn b)), (map_keys (f_dead b) _ (f_dead_conn b)).
+    subst conns3 conns1. rewrite (put_keys_same (xe st3) _ (xe st1)); [apply (put_keys_same (xe st1) conns x); rewrite XE; exact F|].
+    rewrite XE. rewrite <- (XE st1) at 1. apply find_put_same.
+  - intros Q QM QR H. apply Forall_app. split; [apply QE, QM|]. cbn [app]. rewrite app_nil_r. apply (QP Q QR H).
+Qed.
+
+(* ---------- case: the end of a connection's handler - the invariant ---------- *)
+Definition end_op (o : op) (c : N) (now : Z) (ob : cobj) (normal : bool) : Prop :=
+  (exists rc sei, o = ODisconnect c now rc sei /\ normal = negb (bad_sei ob sei) && (rc =? 0)) \/
+  (o = ONetClose c now /\ normal = false) \/ (o = OSecondConnect c now /\ normal = false).
+
+Definition sei_of (o : op) (x : sconn) : option N :=
+  match o with ODisconnect _ _ _ s => if x_ver x =? 5 then s else None | _ => None end.
+
+(* the monitor's "normal" is the model's *)
+Lemma end_normal k s h0 o c now ob normal x p :
+  end_op o c now ob normal -> sane_op s o -> reading s c = Some ob -> pcr k s h0 x ob p -> x_conn x = c -> x_open x = true ->
+  exists n0, ends_conn o = Some (c, now, n0) /\ n0 && negb (raise_attempt x (sei_of o x)) = normal.
+Proof.
+  intros EO SO R P XC XO. destruct (pc_live _ _ _ _ _ _ P XO) as (RQ & OS & _).
+  destruct EO as [(rc & sei & -> & ->)|[[-> ->]|[-> ->]]]; cbn [ends_conn sei_of]; eexists; (split; [reflexivity|]); try reflexivity.
+  unfold bad_sei, raise_attempt. destruct sei as [v|].
+  - cbn in SO. rewrite (pc_ver _ _ _ _ _ _ P), <- (pc_over _ _ _ _ _ _ P), (SO ob R). cbn [N.eqb Pos.eqb].
+    rewrite RQ, OS. apply andb_comm.
+  - destruct (x_ver x =? 5); cbn; rewrite andb_true_r; reflexivity.
+Qed.
+
+(* the view of the connection used by the finding predicates follows the monitor's *)
+Lemma end_view k s h0 b o c now ob normal x p xv :
+  wf s -> end_op o c now ob normal -> b_op b = o -> b_pre b = snap_of s -> reading s c = Some ob -> pcr k s h0 x ob p -> x_conn x = c ->
+  view_of k c None h0 = Some xv -> x_ver xv = x_ver x -> x_req xv = x_req x ->
+  exists xv1, view_of k c None (h0 ++ [b]) = Some xv1 /\ x_ver xv1 = x_ver xv /\ x_clean xv1 = x_clean xv /\ x_delay xv1 = x_delay xv /\
+              x_id xv1 = x_id xv /\ x_req xv1 = (if x_ver x =? 5 then req_after k x (sei_of o x) else x_req x).
+Proof.
+  intros W EO BOP BPRE R P XC VW VV VR. rewrite view_of_app, VW. cbn [view_of]. unfold view_step. rewrite BOP.
+  destruct EO as [(rc & sei & -> & _)|[[-> _]|[-> _]]]; cbn [sei_of].
+  - rewrite N.eqb_refl. rewrite BPRE.
+    assert (L : live_in c (x_id xv) (snap_of s) = true).
+    { destruct (pc_view _ _ _ _ _ _ P) as (xv' & VW' & _ & _ & _ & _ & XI). rewrite XC, VW in VW'. inversion VW'; subst xv'.
+      rewrite XI, (pc_id _ _ _ _ _ _ P). apply live_in_reading; assumption. }
+    rewrite L. eexists. split; [reflexivity|]. cbn. rewrite VV. repeat split; auto.
+    destruct (x_ver x =? 5); [|exact VR]. unfold req_after. rewrite VR. reflexivity.
+  - exists xv. repeat split; auto. rewrite VR. destruct (x_ver x =? 5); reflexivity.
+  - exists xv. repeat split; auto. rewrite VR. destruct (x_ver x =? 5); reflexivity.
+Qed.
+
+Lemma eff_with k x r o e w : eff k (x_with x r o e w) = (if x_ver x =? 5 then r else if x_clean x then 0 else k_maxsei k).
+Proof. reflexivity. Qed.
+
+Lemma pub_reg_excl ob : pub_now ob = true -> reg_now ob = true -> False.
+Proof. unfold pub_now, reg_now. destruct (w_flag (o_will ob)); cbn; [|discriminate]. destruct (0 <? w_delay (o_will ob)); cbn; discriminate. Qed.
+
+Lemma ki_end k m s h0 o s' outs b c now ob normal :
+  KI k m s h0 -> sane_op s o -> b_op b = o -> b_outs b = outs -> b_pre b = snap_of s ->
+  end_op o c now ob normal -> reading s c = Some ob -> mend s (s', outs) c now ob normal ->
+  inv s' -> wwf s' ->
+  (forall c, memN c (st_used s') = false -> params_of c (h0 ++ [b]) = None /\ view_of k c None (h0 ++ [b]) = None) ->
+  KI k (fst (m16_step k (length h0) m b)) s' (h0 ++ [b]) /\
+  Forall (fun v => v_step v = length h0 /\ expl k (h0 ++ [b]) b v) (snd (m16_step k (length h0) m b)).
+Proof.
+  intros [V WW ND KX KO KF] SO BOP BO BPRE EO R (OT & (o' & G' & I' & V1' & O' & P' & W') & T & WSm & CLm) V' WW' KF'.
+  cbn [fst snd] in *. destruct V as [W X].
+  destruct (reading_obj s c ob R) as [G OO]. rewrite OO in CLm.
+  destruct (KO c ob G) as (x & F). destruct (KX c x F) as (ox & px & P). pose proof (find_x_conn _ _ _ F) as XC.
+  assert (EOX : ox = ob) by (pose proof (pc_get _ _ _ _ _ _ P) as GG; rewrite XC, G in GG; congruence). subst ox.
+  assert (XO : x_open x = true) by (rewrite (pc_open _ _ _ _ _ _ P); exact OO).
+  destruct (pc_live _ _ _ _ _ _ P XO) as (RQ & OS & ST01).
+  destruct (end_normal k s h0 o c now ob normal x px EO SO R P XC XO) as (n0 & EC & NRM).
+  assert (NOE : forall id d, In (id, d) (st_wills s) -> d_conn d <> c).
+  { intros id d II E. destruct (ww_done s WW id d II) as (od & Gd & _ & PD). rewrite E, G in Gd. inversion Gd; subst od.
+    destruct (wf_open s W c ob G OO) as (_ & PH & _). congruence. }
+  assert (ENT : forall id d, In (id, d) (st_wills s') -> d_conn d = c -> normal = false /\ reg_now ob = true /\ d = entry_of c now ob).
+  { intros id d II DC. rewrite T in II. destruct normal.
+    - apply in_adel in II. destruct (NOE id d (proj1 II) DC).
+    - destruct (reg_now ob); [|destruct (NOE id d II DC)]. unfold aset in II. apply in_app_or in II. destruct II as [II|[II|[]]].
+      + apply in_adel in II. destruct (NOE id d (proj1 II) DC).
+      + inversion II. auto. }
+  assert (SUB : forall id d, In (id, d) (st_wills s') -> d_conn d <> c -> In (id, d) (st_wills s)).
+  { intros id d II NE. rewrite T in II. destruct normal; [apply in_adel in II; tauto|]. destruct (reg_now ob); [|exact II].
+    unfold aset in II. apply in_app_or in II. destruct II as [II|[II|[]]]; [apply in_adel in II; tauto|]. inversion II; subst. cbn in NE. congruence. }
+  set (ws := if normal then [] else if pub_now ob then [(c, will_msg (o_will ob))] else []) in *.
+  assert (WSC : ws = [] \/ exists mm, ws = [(c, mm)]) by (subst ws; destruct normal; [auto|destruct (pub_now ob); eauto]).
+  rewrite <- BO in WSm, CLm.
+  assert (ECb : ends_conn (b_op b) = Some (c, now, n0)) by (rewrite BOP; exact EC).
+  pose proof (end_spec k (length h0) m b c now n0 x ws ECb F XO CLm WSm WSC
+                (fun c' y FY _ => f_dead_id k s h0 b y (KX c' y FY))) as ES.
+  cbv zeta in ES.
+  change (match b_op b with | ODisconnect _ _ _ s0 => if x_ver x =? 5 then s0 else None | _ => None end) with (sei_of (b_op b) x) in ES.
+  rewrite BOP, NRM in ES.
+  set (req' := if x_ver x =? 5 then req_after k x (sei_of o x) else x_req x) in *.
+  rewrite eff_with in ES.
+  set (ee := if x_ver x =? 5 then req' else if x_clean x then 0 else k_maxsei k) in *.
+  set (dd := minN (x_delay x) ee) in *.
+  destruct ES as (FF & KK & QQ).
+  (* facts about the history *)
+  pose proof (params_snoc _ h0 b px (pc_par _ _ _ _ _ _ P)) as PAR. rewrite XC in PAR.
+  destruct (pc_view _ _ _ _ _ _ P) as (xv & VW & VV & VC & VR & VD & VI). rewrite XC in VW.
+  destruct (end_view k s h0 b o c now ob normal x px xv W EO BOP BPRE R P XC VW VV VR) as (xv1 & VW1 & VV1 & VC1 & VD1 & VI1 & VR1).
+  fold req' in VR1.
+  assert (EFF1 : eff k xv1 = ee) by (unfold eff; rewrite VV1, VV, VC1, VC, VR1; reflexivity).
+  pose proof (stored_le_delay px (pc_sane _ _ _ _ _ _ P)) as SL. rewrite <- (pc_delay _ _ _ _ _ _ P) in SL.
+  (* the flag facts *)
+  assert (FLG : w_flag (o_will ob) = true -> cp_willflag px = true /\ will_msg (o_will ob) = will_of px /\ w_delay (o_will ob) = stored_delay px)
+    by apply (pc_flag _ _ _ _ _ _ P).
+  split.
+  - split; [exact V'|exact WW'| | | |exact KF'].
+    + rewrite KK. exact ND.
+    + intros c' y FY. rewrite FF in FY. destruct (c' =? c) eqn:EQ.
+      * (* the connection that ended *)
+        apply N.eqb_eq in EQ. subst c'. inversion FY; subst y. clear FY.
+        exists o', px. split; cbn [x_conn x_id x_ver x_clean x_will x_delay x_open x_req x_wst x_with].
+        -- rewrite XC. exact G'.
+        -- rewrite XC. exact PAR.
+        -- rewrite (pc_id _ _ _ _ _ _ P). congruence.
+        -- apply (pc_ver _ _ _ _ _ _ P).
+        -- rewrite V1'. apply (pc_over _ _ _ _ _ _ P).
+        -- apply (pc_clean _ _ _ _ _ _ P).
+        -- apply (pc_will _ _ _ _ _ _ P).
+        -- apply (pc_delay _ _ _ _ _ _ P).
+        -- congruence.
+        -- discriminate.
+        -- intro FL'. rewrite W' in FL'. rewrite W'. destruct normal; [discriminate FL'|]. unfold g_lwt in *. destruct (pub_now ob); [discriminate FL'|]. apply FLG, FL'.
+        -- intros id d II DC. rewrite XC in DC. destruct (ENT id d II DC) as (_ & RG & ->). unfold reg_now in RG. apply andb_true_iff in RG. destruct RG as [FL DL].
+           destruct (FLG FL) as (A & B & C). cbn [entry_of d_msg]. rewrite <- C. split; [exact A|split; [exact B|apply N.ltb_lt, DL]].
+        -- exists xv1. rewrite XC. split; [exact VW1|]. repeat split; congruence.
+        -- apply (pc_sane _ _ _ _ _ _ P).
+        -- (* the status *)
+           unfold status_ok. cbn [x_conn x_wst x_with x_open x_delay]. rewrite XC, eff_with. fold ee.
+           pose proof (pc_st _ _ _ _ _ _ P) as ST. unfold status_ok in ST.
+           assert (NSE : reg_now ob = false \/ normal = true -> ~ srcE s' c).
+           { intros H (id & d & II & DC). destruct (ENT id d II DC) as (A & B & _). destruct H; congruence. }
+           destruct ST01 as [XS|XS]; rewrite XS in *.
+           ++ (* no will *)
+              destruct ST as [NF _]. assert (WE : ws = []) by (subst ws; destruct normal; [reflexivity|]; unfold pub_now; rewrite NF; reflexivity).
+              rewrite WE. cbn beta iota. split.
+              ** rewrite W'. destruct normal; [reflexivity|]. unfold g_lwt, pub_now. rewrite NF. cbn. exact NF.
+              ** apply NSE. left. unfold reg_now. rewrite NF. reflexivity.
+           ++ destruct normal.
+              ** subst ws. cbn beta iota. split; [exact P'|apply NSE; auto].
+              ** destruct (pub_now ob) eqn:PN.
+                 --- subst ws. cbn beta iota. split; [exact P'|]. apply NSE. left. destruct (reg_now ob) eqn:RG; [destruct (pub_reg_excl ob PN RG)|reflexivity].
+                 --- subst ws. cbn beta iota. destruct (dd =? 0) eqn:DZ; cbn beta iota.
+                     +++ split; [exact P'|]. intros (id & d & II & DC). right. destruct (ENT id d II DC) as (_ & RG & _).
+                         unfold reg_now in RG. apply andb_true_iff in RG. destruct RG as [FL DL]. destruct (FLG FL) as (_ & _ & C).
+                         apply N.eqb_eq in DZ. apply N.ltb_lt in DL. apply N.ltb_lt. unfold dd, minN in DZ. destruct (x_delay x <? ee) eqn:MM; lia.
+                     +++ split; [exact P'|]. split; [reflexivity|]. intros id d II DC. destruct (ENT id d II DC) as (_ & RG & ->).
+                         unfold reg_now in RG. apply andb_true_iff in RG. destruct RG as [FL _]. destruct (FLG FL) as (_ & _ & C).
+                         cbn [entry_of d_due]. rewrite C. reflexivity.
+      * (* another connection *)
+        apply N.eqb_neq in EQ. destruct (KX c' y FY) as (oy & py & PY). pose proof (find_x_conn _ _ _ FY) as YC.
+        destruct (wk_obj_fwd s s' _ oy (OT _ (eq_ind_r (fun z => z <> c) EQ YC)) (pc_get _ _ _ _ _ _ PY)) as (oy' & GY' & EY). destruct (wk_wkn _ _ EY) as [EK EW].
+        apply (pc_frame k s s' h0 b y oy py PY).
+        -- exists oy'. auto.
+        -- intros id d II DC. apply SUB; [exact II|congruence].
+        -- intros xvy _. unfold view_step. rewrite BOP, YC.
+           destruct EO as [(rc & sei & -> & _)|[[-> _]|[-> _]]]; try reflexivity.
+           destruct (c =? c') eqn:E2; [apply N.eqb_eq in E2; congruence|reflexivity].
+    + intros c' oc' GC'. destruct (N.eq_dec c' c) as [->|NE].
+      * eexists. rewrite FF, N.eqb_refl. reflexivity.
+      * destruct (wk_obj_back s s' _ oc' (OT _ NE) GC') as (oc & GC & _). destruct (KO c' oc GC) as (y & FY). exists y. rewrite FF.
+        destruct (c' =? c) eqn:E2; [apply N.eqb_eq in E2; congruence|exact FY].
+  - apply QQ.
+    + intro id. split; [reflexivity|left; reflexivity].
+    + intros c0 id. split; [reflexivity|left; reflexivity].
+    + intros mm WE. assert (NPN : normal = false /\ pub_now ob = true /\ mm = will_msg (o_will ob)).
+      { subst ws. destruct normal; [discriminate|]. destruct (pub_now ob); [|discriminate]. inversion WE. auto. }
+      destruct NPN as (-> & PN & ->). unfold pub_now in PN. apply andb_true_iff in PN. destruct PN as [FL DL]. destruct (FLG FL) as (A & B & C).
+      split.
+      * unfold vstat. cbn [x_wst x_with x_id]. pose proof (pc_st _ _ _ _ _ _ P) as ST. unfold status_ok in ST.
+        destruct ST01 as [XS|XS]; rewrite XS in *; [destruct ST as [NF _]; congruence|].
+        destruct (dd =? 0) eqn:DZ; [constructor|]. rewrite BOP.
+        assert (ON : op_now o = Some now) by (destruct EO as [(rc & sei & -> & _)|[[-> _]|[-> _]]]; reflexivity). rewrite ON.
+        apply N.eqb_neq in DZ. destruct (now + Z.of_N dd <=? now)%Z eqn:LE; [lia|].
+        constructor; [|constructor]. split; [reflexivity|]. right. right. right. left. split; [reflexivity|]. exists px, xv1. cbn [v_conn mkv].
+        split; [exact PAR|]. split; [exact VW1|]. split; [exact A|]. rewrite EFF1, VD1, VD. fold dd. rewrite <- C.
+        apply negb_true_iff in DL. apply N.ltb_ge in DL. apply N.ltb_lt. lia.
+      * unfold vcont. cbn [x_will x_with]. rewrite (pc_will _ _ _ _ _ _ P), B, beq_msg_refl. constructor.
+Qed.
+
+(* ---------- case: the teardown of a taken-over connection ---------- *)
+Lemma put_same_id x l : find_x (x_conn x) l = Some x -> NoDup (map x_conn l) -> forall c, find_x c (put_x x l) = find_x c l.
+Proof.
+  intros F _ c. rewrite find_put. destruct (x_conn x =? c) eqn:E; [|reflexivity]. apply N.eqb_eq in E. subst c. symmetry. exact F.
+Qed.
+
+Lemma put_found x l : find_x (x_conn x) l = Some x -> put_x x l = l.
+Proof.
+  induction l as [|y r IH]; cbn; [discriminate|]. destruct (x_conn y =? x_conn x) eqn:E.
+  - intro H. inversion H. reflexivity.
+  - intro H. f_equal. apply IH, H.
+Qed.
+
+Lemma teardown_spec k i m b c now x ws :
+  b_op b = OTeardown c now -> find_x c (d_conns m) = Some x -> closes (b_outs b) = [] -> wills_of (b_outs b) = ws ->
+  (ws = [] \/ exists mm, ws = [(c, mm)]) ->
+  let st3 := match ws with [] => x_wst x | _ => WPublished end in
+  let st4 := match st3 with WMust => WFailed | w => w end in
+  (forall c', find_x c' (d_conns (fst (m16_step k i m b))) = if c' =? c then Some (set_wst x st4) else find_x c' (d_conns m)) /\
+  map x_conn (d_conns (fst (m16_step k i m b))) = map x_conn (d_conns m) /\
+  forall Q : viol -> Prop, (forall id, Q (mkv V16_missing_takeover i c id)) -> (forall c0 id, Q (mkv V16_retain i c0 id)) ->
+    (forall mm, ws = [(c, mm)] -> Forall Q (vstat i b x c) /\ Forall Q (vcont i x c mm)) ->
+    Forall Q (snd (m16_step k i m b)).
+Proof.
+  intros BOP F CL WS WSC st3 st4. set (conns := d_conns m) in *. pose proof (find_x_conn _ _ _ F) as XC.
+  assert (E1 : m16_end k i conns b = (conns, [])) by (apply m16_end_none; rewrite BOP; reflexivity).
+  assert (E2 : m16_new k i conns b = (conns, [])) by (apply m16_new_none; rewrite BOP; exact I).
+  assert (XS : forall st, x_conn (set_wst x st) = c) by (intro st; exact XC).
+  assert (E3 : exists v_pub, m16_pubs k i b conns ws = (put_x (set_wst x st3) conns, v_pub) /\
+               forall Q : viol -> Prop, (forall c0 id, Q (mkv V16_retain i c0 id)) ->
+                 (forall mm, ws = [(c, mm)] -> Forall Q (vstat i b x c) /\ Forall Q (vcont i x c mm)) -> Forall Q v_pub).
+  { destruct WSC as [->|(mm & ->)].
+    - exists []. split; [|intros; constructor]. cbn [m16_pubs]. subst st3. cbv beta iota. rewrite set_wst_same. f_equal.
+      symmetry. apply put_found. rewrite XC. exact F.
+    - rewrite (m16_pubs_some k i b conns c mm [] x F). cbn [m16_pubs fst snd]. eexists. split; [reflexivity|].
+      intros Q QR H. destruct (H mm eq_refl) as [HS HC]. apply Forall_app. split; [exact HS|]. apply Forall_app. split; [exact HC|].
+      rewrite app_nil_r. eapply Forall_impl; [|apply vret_tag]. intros v T. rewrite T. apply QR. }
+  destruct E3 as (v_pub & E3 & QP).
+  set (conns3 := put_x (set_wst x st3) conns) in *.
+  assert (F3 : find_x c conns3 = Some (set_wst x st3)) by (subst conns3; rewrite <- (XS st3) at 1; apply find_put_same).
+  assert (E4 : exists v_dead, m16_dead i conns3 b = (put_x (set_wst x st4) conns3, v_dead) /\
+               forall Q : viol -> Prop, (forall id, Q (mkv V16_missing_takeover i c id)) -> Forall Q v_dead).
+  { unfold m16_dead. rewrite BOP, F3. cbn [x_wst set_wst x_with]. subst st4. destruct st3 eqn:S3.
+    3:{ eexists. split; [reflexivity|]. intros Q HQ. repeat constructor. apply HQ. }
+    all: exists []; (split; [|intros; constructor]); f_equal; symmetry; subst conns3; apply put_put; reflexivity. }
+  destruct E4 as (v_dead & E4 & QD).
+  unfold m16_step. fold conns. rewrite E1, E2, WS, E3, E4. cbn [fst snd d_conns app].
+  assert (MK : forall l, map (m16_mark b) l = l).
+  { intro l. induction l as [|y r IH]; cbn; [reflexivity|]. rewrite (mark_nil b y CL), IH. reflexivity. }
+  rewrite MK. split; [|split].
+  - intro c'. subst conns3. rewrite !find_put, !XS. rewrite (N.eqb_sym c c'). destruct (c' =? c); reflexivity.
+  - subst conns3. rewrite (put_keys_same (set_wst x st4) _ (set_wst x st3)); [apply (put_keys_same (set_wst x st3) conns x); rewrite XS; exact F|].
+    rewrite XS. exact F3.
+  - intros Q QM QR H. apply Forall_app. split; [apply (QP Q QR H)|apply QD, QM].
+Qed.
+
+Lemma ki_teardown k m s h0 s' outs b c now ob :
+  KI k m s h0 -> b_op b = OTeardown c now -> b_outs b = outs ->
+  get_obj c (st_objs s) = Some ob -> o_phase ob = PhHeld -> mend s (s', outs) c now ob false ->
+  inv s' -> wwf s' ->
+  (forall c, memN c (st_used s') = false -> params_of c (h0 ++ [b]) = None /\ view_of k c None (h0 ++ [b]) = None) ->
+  KI k (fst (m16_step k (length h0) m b)) s' (h0 ++ [b]) /\
+  Forall (fun v => v_step v = length h0 /\ expl k (h0 ++ [b]) b v) (snd (m16_step k (length h0) m b)).
+Proof.
+  intros [V WW ND KX KO KF] BOP BO G PH (OT & (o' & G' & I' & V1' & O' & P' & W') & T & WSm & CLm) V' WW' KF'.
+  cbn [fst snd] in *. destruct V as [W X].
+  assert (OC : o_open ob = false).
+  { destruct (o_open ob) eqn:OO; [|reflexivity]. destruct (wf_open s W c ob G OO) as (_ & PR & _). congruence. }
+  rewrite OC in CLm.
+  destruct (KO c ob G) as (x & F). destruct (KX c x F) as (ox & px & P). pose proof (find_x_conn _ _ _ F) as XC.
+  assert (EOX : ox = ob) by (pose proof (pc_get _ _ _ _ _ _ P) as GG; rewrite XC, G in GG; congruence). subst ox.
+  assert (XO : x_open x = false) by (rewrite (pc_open _ _ _ _ _ _ P); exact OC).
+  assert (NOE : forall id d, In (id, d) (st_wills s) -> d_conn d <> c).
+  { intros id d II E. destruct (ww_done s WW id d II) as (od & Gd & _ & PD). rewrite E, G in Gd. inversion Gd; subst od. congruence. }
+  assert (ENT : forall id d, In (id, d) (st_wills s') -> d_conn d = c -> reg_now ob = true /\ d = entry_of c now ob).
+  { intros id d II DC. rewrite T in II. destruct (reg_now ob); [|destruct (NOE id d II DC)]. unfold aset in II. apply in_app_or in II.
+    destruct II as [II|[II|[]]]; [apply in_adel in II; destruct (NOE id d (proj1 II) DC)|]. inversion II. auto. }
+  assert (SUB : forall id d, In (id, d) (st_wills s') -> d_conn d <> c -> In (id, d) (st_wills s)).
+  { intros id d II NE. rewrite T in II. destruct (reg_now ob); [|exact II].
+    unfold aset in II. apply in_app_or in II. destruct II as [II|[II|[]]]; [apply in_adel in II; tauto|]. inversion II; subst. cbn in NE. congruence. }
+  set (ws := if pub_now ob then [(c, will_msg (o_will ob))] else []) in *.
+  assert (WSC : ws = [] \/ exists mm, ws = [(c, mm)]) by (subst ws; destruct (pub_now ob); eauto).
+  rewrite <- BO in WSm, CLm.
+  destruct (teardown_spec k (length h0) m b c now x ws BOP F CLm WSm WSC) as (FF & KK & QQ).
+  pose proof (params_snoc _ h0 b px (pc_par _ _ _ _ _ _ P)) as PAR.
+  assert (FLG : w_flag (o_will ob) = true -> cp_willflag px = true /\ will_msg (o_will ob) = will_of px /\ w_delay (o_will ob) = stored_delay px)
+    by apply (pc_flag _ _ _ _ _ _ P).
+  assert (ARM : w_flag (o_will ob) = true -> is_armed ob) by (intro FL; split; [exact FL|congruence]).
+  pose proof (pc_st _ _ _ _ _ _ P) as ST. unfold status_ok in ST. rewrite XC in ST.
+  (* the possible statuses of a held connection *)
+  assert (STS : (x_wst x = WNone /\ pub_now ob = false) \/ x_wst x = WMust \/ (x_wst x = WCancelled /\ pub_now ob = false)).
+  { destruct (x_wst x) eqn:XS; try (destruct ST as [PD _]; congruence).
+    - left. split; [reflexivity|]. unfold pub_now. rewrite (proj1 ST). reflexivity.
+    - congruence.
+    - right. left. reflexivity.
+    - right. right. split; [reflexivity|]. destruct (pub_now ob) eqn:PN; [|reflexivity]. exfalso. unfold pub_now in PN. apply andb_true_iff in PN.
+      destruct PN as [FL DL]. destruct (ST (or_introl (ARM FL))) as [_ D]. specialize (D (ARM FL)). apply negb_true_iff, N.ltb_ge in DL. lia. }
+  split.
+  - split; [exact V'|exact WW'| | | |exact KF'].
+    + rewrite KK. exact ND.
+    + intros c' y FY. rewrite FF in FY. destruct (c' =? c) eqn:EQ.
+      * apply N.eqb_eq in EQ. subst c'. inversion FY; subst y. clear FY.
+        exists o', px. split; cbn [x_conn x_id x_ver x_clean x_will x_delay x_open x_req x_wst x_with set_wst].
+        -- rewrite XC. exact G'.
+        -- exact PAR.
+        -- rewrite (pc_id _ _ _ _ _ _ P). congruence.
+        -- apply (pc_ver _ _ _ _ _ _ P).
+        -- rewrite V1'. apply (pc_over _ _ _ _ _ _ P).
+        -- apply (pc_clean _ _ _ _ _ _ P).
+        -- apply (pc_will _ _ _ _ _ _ P).
+        -- apply (pc_delay _ _ _ _ _ _ P).
+        -- congruence.
+        -- intro H. congruence.
+        -- intro FL'. rewrite W' in FL'. rewrite W'. unfold g_lwt in *. destruct (pub_now ob); [discriminate FL'|]. apply FLG, FL'.
+        -- intros id d II DC. rewrite XC in DC. destruct (ENT id d II DC) as (RG & ->). unfold reg_now in RG. apply andb_true_iff in RG. destruct RG as [FL DL].
+           destruct (FLG FL) as (A & B & C). cbn [entry_of d_msg]. rewrite <- C. split; [exact A|split; [exact B|apply N.ltb_lt, DL]].
+        -- destruct (pc_view _ _ _ _ _ _ P) as (xv & VW & VX). exists xv. split; [|exact VX]. rewrite view_of_app, VW. cbn [view_of]. unfold view_step. rewrite BOP. reflexivity.
+        -- apply (pc_sane _ _ _ _ _ _ P).
+        -- unfold status_ok. cbn [x_conn x_wst x_with set_wst]. rewrite XC.
+           destruct STS as [[XS PN]|[XS|[XS PN]]]; rewrite XS in *.
+           ++ subst ws. rewrite PN. cbn beta iota. destruct ST as [NF _]. split.
+              ** rewrite W', PN. exact NF.
+              ** intros (id & d & II & DC). destruct (ENT id d II DC) as (RG & _). unfold reg_now in RG. rewrite NF in RG. discriminate.
+           ++ destruct ST as [_ TOL]. subst ws. destruct (pub_now ob) eqn:PN; cbn beta iota.
+              ** split; [exact P'|]. intros (id & d & II & DC). destruct (ENT id d II DC) as (RG & _). destruct (pub_reg_excl ob PN RG).
+              ** split; [exact P'|]. intros _. left. apply tol_mono, TOL.
+           ++ subst ws. rewrite PN. cbn beta iota. intros [[_ AR]|(id & d & II & DC)]; [congruence|].
+              destruct (ENT id d II DC) as (RG & _). unfold reg_now in RG. apply andb_true_iff in RG. destruct RG as [FL _].
+              destruct (ST (or_introl (ARM FL))) as [TOL _]. split; [apply tol_mono, TOL|]. intros [_ AR]. congruence.
+      * apply N.eqb_neq in EQ. destruct (KX c' y FY) as (oy & py & PY). pose proof (find_x_conn _ _ _ FY) as YC.
+        destruct (wk_obj_fwd s s' _ oy (OT _ (eq_ind_r (fun z => z <> c) EQ YC)) (pc_get _ _ _ _ _ _ PY)) as (oy' & GY' & EY). destruct (wk_wkn _ _ EY) as [EK EW].
+        apply (pc_frame k s s' h0 b y oy py PY).
+        -- exists oy'. auto.
+        -- intros id d II DC. apply SUB; [exact II|congruence].
+        -- intros xvy _. unfold view_step. rewrite BOP. reflexivity.
+    + intros c' oc' GC'. destruct (N.eq_dec c' c) as [->|NE].
+      * eexists. rewrite FF, N.eqb_refl. reflexivity.
+      * destruct (wk_obj_back s s' _ oc' (OT _ NE) GC') as (oc & GC & _). destruct (KO c' oc GC) as (y & FY). exists y. rewrite FF.
+        destruct (c' =? c) eqn:E2; [apply N.eqb_eq in E2; congruence|exact FY].
+  - apply QQ.
+    + intro id. split; [reflexivity|left; reflexivity].
+    + intros c0 id. split; [reflexivity|left; reflexivity].
+    + intros mm WE. assert (NPN : pub_now ob = true /\ mm = will_msg (o_will ob)).
+      { subst ws. destruct (pub_now ob); [|discriminate]. inversion WE. auto. }
+      destruct NPN as (PN & ->). destruct STS as [[_ PN']|[XS|[_ PN']]]; try congruence.
+      unfold pub_now in PN. apply andb_true_iff in PN. destruct PN as [FL DL]. destruct (FLG FL) as (A & B & C).
+      split; [unfold vstat; rewrite XS; constructor|]. unfold vcont. rewrite (pc_will _ _ _ _ _ _ P), B, beq_msg_refl. constructor.
+Qed.
+
+(* ---------- case: a connection is accepted - what the monitor computes ---------- *)
+Lemma takeover_conn k ws c p e x : x_conn (m16_takeover k ws c p e x) = x_conn x.
+Proof.
+  unfold m16_takeover. destruct (_ && _); [|reflexivity]. destruct (x_wst x); try reflexivity.
+  - destruct (x_open x); [|reflexivity]. destruct (_ && _); reflexivity.
+  - destruct (cp_clean p); [|reflexivity]. destruct (published_in ws (x_conn x)); reflexivity.
+Qed.
+
+Lemma f_dead_none b x : ends_conn (b_op b) = None -> f_dead b x = x.
+Proof. intro E. unfold f_dead. rewrite E. destruct (x_wst x); reflexivity. Qed.
+
+Definition lost_viols (i : nat) (c : N) (p : cparams) (e : bytes) (conns : list sconn) : list viol :=
+  flat_map (fun x =>
+    if beq_bytes (x_id x) e && negb (x_conn x =? c) && cp_clean p && negb (published_in [] (x_conn x)) then
+      match x_wst x with WPending _ _ => [mkv V16_lost_clean i (x_conn x) e] | _ => [] end
+    else []) conns.
+
+Lemma accept_spec k i m b c now p a e sp :
+  b_op b = OConnect c now p a e -> success_connack (pkts_to c (b_outs b)) = Some sp -> wills_of (b_outs b) = [] ->
+  find_x c (d_conns m) = None ->
+  (forall c', find_x c' (d_conns (fst (m16_step k i m b))) =
+              if c' =? c then Some (m16_mark b (x_new k c p e))
+              else option_map (fun y => m16_mark b (m16_takeover k [] c p e y)) (find_x c' (d_conns m))) /\
+  map x_conn (d_conns (fst (m16_step k i m b))) = map x_conn (d_conns m) ++ [c] /\
+  snd (m16_step k i m b) = lost_viols i c p e (d_conns m).
+Proof.
+  intros BOP SC WS FN. set (conns := d_conns m) in *.
+  assert (E1 : m16_end k i conns b = (conns, [])) by (apply m16_end_none; rewrite BOP; reflexivity).
+  assert (E2 : m16_new k i conns b = (put_x (x_new k c p e) (map (m16_takeover k [] c p e) conns), lost_viols i c p e conns)).
+  { unfold m16_new. rewrite BOP, SC, WS. reflexivity. }
+  assert (E4 : forall l, m16_dead i l b = (l, [])).
+  { intro l. rewrite m16_dead_default by (rewrite BOP; exact I). f_equal. induction l as [|y r IH]; cbn; [reflexivity|].
+    rewrite f_dead_none by (rewrite BOP; reflexivity). rewrite IH. reflexivity. }
+  unfold m16_step. fold conns. rewrite E1, E2, WS. cbn [m16_pubs]. rewrite E4. cbn [fst snd d_conns app]. rewrite app_nil_r.
+  assert (FT : find_x c (map (m16_takeover k [] c p e) conns) = None).
+  { rewrite (find_map _ c conns (takeover_conn k [] c p e)), FN. reflexivity. }
+  split; [|split; [|reflexivity]].
+  - intro c'. rewrite (find_map (m16_mark b) c' _ (m16_mark_conn b)), find_put. cbn [x_conn x_new].
+    rewrite (N.eqb_sym c c'). destruct (c' =? c); [reflexivity|].
+    rewrite (find_map _ c' conns (takeover_conn k [] c p e)). destruct (find_x c' conns); reflexivity.
+  - rewrite (map_keys (m16_mark b) _ (m16_mark_conn b)), put_keys_new by exact FT.
+    rewrite (map_keys _ conns (takeover_conn k [] c p e)). reflexivity.
+Qed.
